@@ -92,6 +92,60 @@ COMMON_ASSUMPTIONS = [
 ]
 
 
+# ---------------------------------------------------------------- type parametricity (expansion level)
+PARAM_EXTRA_TYPES = ['*const [u8]', '*mut str', 'tagged::PhantomData<u8>', 'PhantomData<u8>', '::core::marker::PhantomData<u8>', '(u8, u16)',
+                     "Option<&'static str>", '::std::vec::Vec<u8>', 'Self_', '[[u8; 2]; 3]', "&'static &'static u8", 'fn(u8) -> u8']
+
+
+def type_parametricity(ctx, trait_lists):
+    """For Debug / Clone / PartialEq / Eq / PartialOrd / Ord / Hash the written type of a field is nothing but a token string
+    to the macro (it reappears in where-predicates only): the expansion with field type X must be the expansion with the
+    reference type, X substituted.  One TraceX group per (shape, trait list); the projected expansions must agree."""
+    sub = SubCtx(ctx, 'typaram')
+    exe = xchan.build(None)
+    recs = model_check_tagged(sub, [{'module': 'EduceTypes', 'cfg': 'MC_Typed_quick.cfg', 'workers': 4, 'timeout': 900}], 'TYTYPED')
+    types = sorted({r['ty'] for r in recs if len(r['wraps']) <= 1 and not __import__('re').search(r"\bT\b|'a", r['ty']) and r['ty'] != '()'}) + PARAM_EXTRA_TYPES      # (`()` is a token sequence the generated code uses itself)
+    shapes = ['struct T { a: ZZ9, f: %s }', 'struct T(ZZ9, %s);', 'enum T { V1 { a: ZZ9, f: %s }, V2(%s), V3 }']
+    ref = 'QQ'
+    requests, meta, tyof = [], {}, {}
+    for si, sh in enumerate(shapes):
+        for ti, tl in enumerate(trait_lists):
+            g = 'p%d.%d' % (si, ti)
+            for k, ty in enumerate([ref] + types):
+                rid = '%s#%d' % (g, k)
+                requests.append({'id': rid, 'text': '#[educe(%s)] %s' % (tl, sh.replace('%s', ty))})
+                meta[rid] = {'mode': 'same', 'g': g, 'reset': k == 0}
+                tyof[rid] = ty
+
+    import re as _re
+    tok = _re.compile(r"'?[A-Za-z_][A-Za-z_0-9]*|\d+|::|->|[^\sA-Za-z_0-9]")
+
+    def project(r, m):
+        # replace the token sequence of the field type (never a substring of another token) by the reference type
+        out, ty = tok.findall(r['out']), tok.findall(tyof[r['id']])
+        res, i, n = [], 0, len(ty)
+        while i < len(out):
+            if out[i:i + n] == ty:
+                res.append(ref)
+                i += n
+            else:
+                res.append(out[i])
+                i += 1
+        return ' '.join(res)
+
+    trace, raw = xpipe.run_requests(sub, exe, requests, meta, trace_name='ptrace.ndjson', project=project)
+    res = xpipe.validate(sub, trace)
+    lines = rpipe.load_lines(trace, res['bad'])
+    text = {q['id']: q['text'] for q in requests}
+    for ln in res['bad']:
+        e = lines[ln]
+        ctx.violation({'kind': 'type-dependent-expansion', 'input': text[e['id']]},
+                      {'what': 'the expansion depends on how the type of a field is written (beyond repeating it): it differs from the expansion for the '
+                               'reference type with the type substituted', 'input': text[e['id']], 'field_type': tyof[e['id']], 'outcome': e['outcome']})
+    ctx.coverage['type_parametricity'] = {'inputs': len(requests), 'field_types': len(types), 'rejected': len(res['bad']),
+                                          'states': sub.coverage.get('states', 0)}
+
+
 # ---------------------------------------------------------------- C02
 def c02(ctx):
     quick = ctx.tier == 'quick'
@@ -107,6 +161,7 @@ def c02(ctx):
                'every struct/enum shape within the bounds of the MC_C02 cfg x {own, ignore, method} per field x attribute carried by '
                'PartialEq(..) or Eq(..); all ordered pairs of values over the value domain, == and != each; every value (incl. the non-reflexive NaN) compared with *itself*, same object; '
                'non-trivial = more than one variant or a non-default field attribute')
+    type_parametricity(ctx, ['PartialEq', 'PartialEq, Eq'])
 
 
 # ---------------------------------------------------------------- C03
@@ -137,6 +192,7 @@ def c03(ctx):
                'ways of educing ordering (PartialOrd alone; PartialOrd+Ord with parameters under Ord(..) or PartialOrd(..); Ord with a hand-written PartialOrd); '
                'all ordered pairs of values (plus the incomparable value for a stand-alone PartialOrd); cmp and partial_cmp; '
                'non-trivial = more than one variant or a non-default field attribute')
+    type_parametricity(ctx, ['PartialEq, PartialOrd', 'PartialEq, Eq, PartialOrd, Ord'])
 
 
 # ---------------------------------------------------------------- C05
@@ -161,6 +217,7 @@ def c05(ctx):
             n_obs += len(json.loads(line).get('obs', []))
     ctx.coverage['evaluations'] = n_obs
     ctx.coverage['hash_observations'] = n_obs
+    type_parametricity(ctx, ['Hash'])
 
 
 # ---------------------------------------------------------------- C04
@@ -216,6 +273,7 @@ def c07(ctx):
                'struct/enum shapes within the bounds of the MC_C07 cfg x Clone {own, method} per field x {Clone; Clone, Copy; Copy, Clone}; clone() of every value and '
                'clone_from for every ordered pair (same and different variants), results observed as per-field fingerprints (origin, value, how produced); '
                'a compile-time `T: Copy` assertion for every type that educes Copy; non-trivial = more than one variant or a non-default field attribute')
+    type_parametricity(ctx, ['Clone', 'Clone, Copy'])
 
 
 # ---------------------------------------------------------------- C06
@@ -286,11 +344,12 @@ def c06(ctx):
                'field-level {own, ignore, method} x rename, with at most MaxDeviations non-default settings per configuration (t-way coverage); every value formatted with '
                '{:?} and {:#?}; the text must equal the TLA+ renderer of the effective shape, the field fmt calls must be exactly the shown fields in order, and '
                'configurations without parameters must print byte-identically to a #[derive(Debug)] twin; non-trivial = any non-default setting or more than one variant')
+    type_parametricity(ctx, ['Debug'])      # (the name-less form generates a helper that itself mentions `&'static str`)
 
 
 # ---------------------------------------------------------------- C08
 class DefaultRender(TypeRender):
-    NAT = {'none': 'i32', 'int': 'i32', 'str': "&'static str", 'bool': 'bool', 'char': 'char', 'float': 'f64'}
+    NAT = {'none': 'i32', 'int': 'i32', 'int8': 'u8', 'str': "&'static str", 'bool': 'bool', 'char': 'char', 'float': 'f64'}
 
     def __init__(self, idx, cfg, prop, **kw):
         super().__init__(idx, cfg, prop, **kw)
